@@ -204,7 +204,9 @@ def verdict(desc):
     pr = build(desc, "rev")
     run_coupled(pr) if coupled else pr.run_model()
     Jr = _dense(pr.compute_totals(of=of, wrt=wrt))
-    fm = {o: max(_mag(pf, o), 1e-6) for o in of}
+    # natural magnitude of each function: its own, but never below 1e-3 (the functions are O(1) coefficients and ratios or
+    # large dimensional quantities; a coefficient that happens to vanish - zero-lift point - keeps its O(1) scale)
+    fm = {o: max(_mag(pf, o), 1e-3) for o in of}
     xm = {w: max(_mag(pf, w), 1.0) for w in wrt}
     # (1) fwd vs rev
     for k in Jf:
